@@ -26,6 +26,17 @@ theorem versioned_deserialize_whole_path (O : Oracles) (opts : DeserOpts) (cls :
     ∧ deserializeVersioned O opts cls ms d' = deserializeVersioned O opts cls ms d :=
   ⟨versioned_deser_result _ ms d d' v hv h1 h, versioned_deser_equiv _ ms d d' v hv h1 h⟩
 
+/-- the same with `direct_trusted_mapping=True` (Sem/Trusted.lean: eligibility classifier, `from_trusted_data`, which
+    still runs `Versioned.__init__`): old document and converted document deserialize alike, through the remainder
+    applied to the converted document -/
+theorem versioned_deserialize_trusted_whole_path (O : Oracles) (opts : DeserOpts) (cls : FieldDecl)
+    (ms : Option (List Mapping)) (d d' : Json) (v : Int)
+    (hv : docVersion d = some v) (h1 : 1 ≤ v) (h : convertDict d (ms.getD []) = .ok d') :
+    deserializeVersionedTrusted O opts cls ms d
+        = .ok (versionedRestTrusted O opts cls (((ms.getD []).length : Int) + 1) d')
+    ∧ deserializeVersionedTrusted O opts cls ms d' = deserializeVersionedTrusted O opts cls ms d :=
+  ⟨versioned_deser_result _ ms d d' v hv h1 h, versioned_deser_equiv _ ms d d' v hv h1 h⟩
+
 /-- **versioned_deserialize_is_plain**: for a class whose `version` field is an integer field, deserializing a
     document at any version `v ∈ 1..len+1` yields exactly what the plain deserializer (`Typedpy.deserialize`, the
     model C05/C06 are about) yields for the same class on the converted latest-version document -/
